@@ -39,7 +39,7 @@ CheckObs(S, id, o) ==
                 /\ Say(o.r.v.key_map_declared = a.key_map_used, id, "C12", "header.key_map", why)
                 /\ Say(o.r.v.value_map_declared = a.value_map_used, id, "C12", "header.value_map", why)
                 /\ Say(o.r.v.meta_ok, id, "C12", "header.user_meta", why)
-                /\ Say(o.r.v.keys_short, id, "C12", "layout.keys_not_shortened", why))
+                /\ Say(o.r.v.keys_short, id, "C12", "layout.keys_or_values_not_shortened_as_declared", why))
      [] o.q = "roundtrip" ->
           /\ Say(o.r.s = "ok", id, "C05", "roundtrip.status:" \o o.r.s, why)
           /\ (o.r.s = "ok" =>
